@@ -234,7 +234,11 @@ func ruleGetTS(c *Ctx) {
 	}
 	fLogical := P.Field("github.com/pingcap/kvproto/pkg/pdpb", "Timestamp", "Logical")
 	getLogical := F(P.Method("github.com/pingcap/kvproto/pkg/pdpb", "Timestamp", "GetLogical"))
-	logicalVal := orPred(loadOfField(fLogical), resultOfCall(getLogical))
+	logicalVal := orPred(loadOfField(fLogical), resultOfCall(getLogical), func(v ssa.Value) bool {
+		// the logical part as generateTSO returned it, before it is put into the response
+		ex, ok := strip(v).(*ssa.Extract)
+		return ok && ex.Index == 1 && valueIsCallTo(ex.Tuple, gen)
+	})
 	gOverflow := guardRel("logical<maxLogical", "<", logicalVal, isConstInt(maxLogical))
 	gOverflow.invalidate = instrCallMatcher(gen)
 	lead := newBoolEv(getTS, "leadership.Check() after generateTSO", true, callMatcher(check))
